@@ -202,6 +202,20 @@ def judge_scale(case) -> Outcome:
         r = float(np.sum(a ** 2)) / (n - ddof)
         if abs(r - 1) > 4 * tol + 1e-12:
             out.fail("c13.std_not_one", f"{tag}: sum(out^2)/(n-ddof) = {r!r} (|.-1| > {4 * tol:.1e})")
+    if case.get("input", "array") == "array" and center in (True, False) and scale in (True, False):
+        # column-wise: next to another column (a 2-D array, as scale(poly(x, 2, raw=True)) hands over) the column comes out the same
+        try:
+            from formulaic.transforms import TRANSFORMS
+
+            other = x[::-1] * 3.0 + 1.0
+            kw2 = {k_: v_ for k_, v_ in flags.items()}
+            with quiet():
+                two = np.asarray(TRANSFORMS[fn](np.column_stack([x, other]), _state={}, **kw2), float)
+            if two.shape != (n, 2) or not np.allclose(two[:, 0], a, rtol=1e-9, atol=200 * EPS * max(kappa, 1.0) * max(1.0, float(np.max(np.abs(a))))):
+                out.fail("c13.columnwise", f"{tag}: as the first column of a two-column array the result is {two[:3, 0].tolist() if two.ndim == 2 else two.shape}, alone it is {a[:3].tolist()}")
+            out.see("two_column_inputs")
+        except Exception as e:  # noqa: BLE001
+            out.fail("c13.columnwise", f"{tag}: two-column input: {type(e).__name__}: {str(e)[:120]}")
     ref_fit = xc / s
     ref_new = (xn - c) / s
     lim_v = 200 * EPS * max(kappa, 1.0) * max(1.0, float(np.max(np.abs(ref_fit))))
